@@ -44,6 +44,7 @@ Inductive cmd :=
 | CAnnounce (p : N) (k : nat) (byinv : bool)
 | CTick (aged : bool)
 | CGetHeaders (p : N)           (* the node asks the service for headers (experimental engine only) *)
+| CConnectDrop (p : N) (stage : nat)   (* the node drops during the handshake: stage 0 before its version, 1 after version before verack *)
 | CRun (fuel : nat).
 
 (* ------------------------------ default engine ------------------------------ *)
@@ -119,6 +120,19 @@ Definition y_cmd (y : sys) (c : cmd) : sys * trace :=
       if n_used n then (y, []) else
       let y1 := y_with y (y_eng y) (upd_node p (fun n => n_with n (n_chain n) (n_reserve n) true true (n_stalled n) []) (y_nodes y)) (y_done y) (y_hints y) in
       eng_event y1 (ENew p true (Z.of_nat (length (n_chain n))))
+    end
+  | CConnectDrop p stage =>
+    match aget p (y_nodes y) with
+    | None => (y, [])
+    | Some n =>
+      if n_used n then (y, []) else
+      let y1 := y_with y (y_eng y) (upd_node p (fun n => n_with n (n_chain n) (n_reserve n) false true (n_stalled n) []) (y_nodes y)) (y_done y) (y_hints y) in
+      match stage with
+      | O => (y1, [])                    (* nothing was ever registered: VersionKnown() is false, no DonePeer either *)
+      | S _ =>
+        let '(y2, t) := eng_event y1 (ENewGone p true (Z.of_nat (length (n_chain n)))) in
+        (y_with y2 (y_eng y2) (y_nodes y2) (y_done y2 ++ [p]) (y_hints y2), t)
+      end
     end
   | CDeliver p => deliver y p
   | CDone p => deliver_done y p
@@ -199,6 +213,7 @@ Definition z_cmd (z : xsys) (c : cmd) : xsys * xtrace :=
   | CAnnounce _ k byinv => (z_with z (z_eng z) (node_announce (z_node z) k byinv), [])
   | CTick _ => (z, [])
   | CGetHeaders _ => if n_open (z_node z) then z_event z XGetHeaders else (z, [])
+  | CConnectDrop _ _ => (z, [])
   | CRun fuel => z_run_q fuel z
   end.
 
